@@ -156,6 +156,10 @@ func c25Extra(c *Ctx, p *Prog, pk *packages.Package) {
 							}
 						}
 					}
+					// the byte slice the packet was appended to
+					if id, ok := ast.Unparen(a).(*ast.Ident); ok && appendAccumulators(info, fd.Body)[info.ObjectOf(id)] {
+						bufObj = info.ObjectOf(id)
+					}
 				}
 			}
 			return true
@@ -174,6 +178,9 @@ func c25Extra(c *Ctx, p *Prog, pk *packages.Package) {
 						if _, isLit := u.X.(*ast.CompositeLit); isLit {
 							fresh = true
 						}
+					}
+					if freshBufferDef(info, rhs) {
+						fresh = true
 					}
 					if call, ok := rhs.(*ast.CallExpr); ok {
 						n := types.ExprString(call.Fun)
